@@ -8,6 +8,8 @@ import BtcVerif.Crypto.Sha1
 import BtcVerif.Crypto.Ripemd160
 import BtcVerif.Crypto.Murmur3
 import BtcVerif.Crypto.Secp256k1
+import BtcVerif.Model.Keys
+import BtcVerif.Spec.Chain
 
 namespace Driver.C13
 open BtcVerif Driver
@@ -112,7 +114,70 @@ def primitives (op : String) (args : List String) : Option String :=
       | none => badArgs
   | _, _ => none
 
+/-- verdict on a signature the library produced: strict DER, low S (reference test and the model of
+    `IsLowDERSignature`), reference verification under the key `secret·G` -/
+def signVerdict (secret : Bytes) (digest sig : Bytes) : String :=
+  match Secp256k1.derDecodeStrict sig with
+  | none => "bad:not-strict-der"
+  | some (r, s) =>
+    let low := Secp256k1.isLowS s
+    let mlow := Model.Keys.isLowDERSignature sig
+    let ver := Secp256k1.verify (Secp256k1.mulG (beNat secret)) (Secp256k1.digestNat digest) r s
+    if low && ver && (match mlow with | .ok true => true | _ => false) then "ok"
+    else s!"bad:lowS={bit low},verify={bit ver},modelLow={Res.render (mlow.map bit)}"
+
+def glue (op : String) (args : List String) : Option String :=
+  match op, args with
+  | "c13.key", [chain, secret, c] => some <|
+      match Spec.chainByName? chain, parseHex? secret, parseBool? c with
+      | some ch, some secret, some c =>
+          let payload := Model.Keys.wifPayload secret c
+          let pub := Model.Keys.pubOfSecret secret c
+          let rt := match Model.Keys.wifParse ch.secretKey ch.secretKey payload with
+            | .ok (sec, c') => s!"{toHex sec},{bit c'},{toHex (Model.Keys.pubOfSecret sec c')}"
+            | .error e => "err:" ++ e.family
+          s!"pub={toHex pub} ver={ch.secretKey} payload={toHex payload} rt={rt}"
+      | _, _, _ => badArgs
+  | "c13.wifparse", [chain, ver, payload] => some <|
+      match Spec.chainByName? chain, parseNat? ver, parseHex? payload with
+      | some ch, some ver, some payload =>
+          (match Model.Keys.wifParse ch.secretKey ver payload with
+           | .ok (sec, c) => s!"{toHex sec},{bit c},{toHex (Model.Keys.pubOfSecret sec c)}"
+           | .error e => "err:" ++ e.family)
+      | _, _, _ => badArgs
+  | "c13.signcheck", [secret, _c, digest, sig] => some <|
+      match parseHex? secret, parseHex? digest, parseHex? sig with
+      | some secret, some digest, some sig => signVerdict secret digest sig
+      | _, _, _ => badArgs
+  | "c13.signFinish", [digest, raw] => some <|
+      match parseHex? digest, parseHex? raw with
+      | some digest, some raw =>
+          Res.render ((Model.Keys.signFinish digest raw).map fun o =>
+            match o with | some b => toHex b | none => "None")
+      | _, _ => badArgs
+  | "c13.isLowDer", [sig] => some <|
+      match parseHex? sig with
+      | some sig => Res.render ((Model.Keys.isLowDERSignature sig).map bit)
+      | none => badArgs
+  | "c13.cmpBE", [a, b] => some <|
+      match parseHex? a, parseHex? b with
+      | some a, some b =>
+          let r := Model.Keys.compareBigEndian a b
+          if r > 0 then "1" else if r < 0 then "-1" else "0"
+      | _, _ => badArgs
+  | "c13.toLowS", [sig] => some <|
+      match parseHex? sig with
+      | some sig => (match Model.Keys.signatureToLowS sig with | some b => toHex b | none => "None")
+      | none => badArgs
+  | "c13.fullyvalid", [pk] => some <|
+      match parseHex? pk with
+      | some pk => bit (Secp256k1.decode pk).isSome
+      | none => badArgs
+  | _, _ => none
+
 def handle (op : String) (args : List String) : Option String :=
-  primitives op args
+  match primitives op args with
+  | some r => some r
+  | none => glue op args
 
 end Driver.C13
